@@ -56,13 +56,13 @@ type Inconclusive struct {
 }
 
 type Witness struct {
-	Model    map[string]uint64 `json:"model"`
-	StrModel map[string]string `json:"str_model,omitempty"`
-	Observed []string          `json:"observed"`
-	Reached  []string          `json:"reached"`
-	Choices  []int             `json:"choices,omitempty"`
-	Symbolic bool              `json:"symbolic"`
-	NDChoices int              `json:"nd_choices"` // select / scheduler choices on the path: the native run may legitimately differ
+	Model     map[string]uint64 `json:"model"`
+	StrModel  map[string]string `json:"str_model,omitempty"`
+	Observed  []string          `json:"observed"`
+	Reached   []string          `json:"reached"`
+	Choices   []int             `json:"choices,omitempty"`
+	Symbolic  bool              `json:"symbolic"`
+	NDChoices int               `json:"nd_choices"` // select / scheduler choices on the path: the native run may legitimately differ
 }
 
 // PathResult is what one completed path reports back.
@@ -355,22 +355,26 @@ type Machine struct {
 	harnessName string
 	ended       bool
 
-	abort         *pathAbort
-	goPanic       *targetPanic
-	goPanicG      *G
-	exploreSched  bool
-	lastRun       *G
-	preemptions   int
-	maxPreempt    int
-	observedTerms []observation
-	lazyAddr      map[*Value]*ssa.Global
-	namedErrs     map[string]Value
-	initDepth     int
-	seq           int
-	allocs        []sliceRef
-	asmOOB        int
-	trackAllocs   bool
-	ndChoices     int
+	abort           *pathAbort
+	goPanic         *targetPanic
+	goPanicG        *G
+	exploreSched    bool
+	lastRun         *G
+	preemptions     int
+	maxPreempt      int
+	observedTerms   []observation
+	lazyAddr        map[*Value]*ssa.Global
+	namedErrs       map[string]Value
+	initDepth       int
+	seq             int
+	allocs          []sliceRef
+	asmOOB          int
+	trackAllocs     bool
+	ndChoices       int
+	symbolicAllocs  int
+	ghostAssert     bool
+	allocGuardID    string
+	allocGuardBound int64
 }
 
 type sliceRef struct {
@@ -709,7 +713,11 @@ func (m *Machine) Assert(fr *Frame, cond *Term, id string) {
 	case VUnknown:
 		m.res.Inconclusive = append(m.res.Inconclusive, Inconclusive{ID: id, Reason: "solver unknown on assertion: " + m.solver.lastError, Where: fr.where()})
 	case VSat:
-		m.recordViolation(fr, id, "assert", "", model, smodel)
+		kind := "assert"
+		if m.ghostAssert {
+			kind = "ghost" // decided on engine-side ghost state: a native replay cannot observe it
+		}
+		m.recordViolation(fr, id, kind, "", model, smodel)
 	}
 	if cond.IsConst() {
 		panic(pathAbort{"assume", "after violation"})
